@@ -591,7 +591,7 @@ func cmdCheck(args []string) int {
 		ch <- k
 	}
 	close(ch)
-	deadline := t0.Add(time.Duration(wallS) * time.Second)
+	deadline := time.Now().Add(time.Duration(wallS) * time.Second) // the batch budget starts after Prepare (instrumented or -race builds)
 	var wg sync.WaitGroup
 	trouble := make(chan string, 1024)
 	for w := 0; w < workers; w++ {
